@@ -114,6 +114,7 @@ type HarnessRun struct {
 	known   map[string]bool
 	doneSeen int
 	rng      uint64
+	groups   map[string]bool
 	concrete []WitnessVal
 }
 
@@ -165,7 +166,7 @@ func applyCfg(c *Config, kv map[string]string, tier string) error {
 			c.Split = n
 		case "maxwall":
 			c.MaxWallS = n
-		case "bound", "tier":
+		case "bound", "tier", "use":
 		default:
 			if strings.HasPrefix(k, "b_") {
 				continue
@@ -189,6 +190,12 @@ func RunHarnessW(ld *Loaded, decl *HarnessDecl, base Config, known map[string]bo
 	h := &HarnessRun{ld: ld, decl: decl, cfg: cfg, fns: map[string]bool{}, stubs: map[string]bool{}, notes: map[string]bool{},
 		incs: map[string]bool{}, vioSeen: map[string]int{}, known: known}
 	h.concrete = witness
+	h.groups = map[string]bool{}
+	for _, g := range strings.Split(decl.Cfg["use"], ",") {
+		if g != "" {
+			h.groups[g] = true
+		}
+	}
 	h.cond = sync.NewCond(&h.mu)
 	if s, err := strconv.ParseUint(os.Getenv("VERIF_SEED"), 10, 64); err == nil {
 		h.rng = s
